@@ -581,6 +581,25 @@ Definition register (h : hub) (c : N) (cn : conn) (b : N) (k : kind) (u : N) : h
     (h5, [ToConn c (SHello sid u)]).
 
 Definition flush (c : N) (l : list smsg) : list out := map (ToConn c) l.
+(* does the queue of a session hold a message that closes the connection it is written to
+   (is_closing, for the connection the session is about to be attached to) *)
+(* the part of the queue a resume gets to write: everything up to and including the first message that
+   closes the connection (after the close frame nothing else can be written) *)
+Fixpoint upto_closing (room : option (N * N)) (l : list smsg) : list smsg :=
+  match l with
+  | [] => []
+  | m :: r =>
+      if match m with
+         | SBye _ => true
+         | SDisinvite x => match room with Some k => N.eqb (snd k) x | None => false end
+         | _ => false end
+      then [m] else m :: upto_closing room r
+  end.
+Definition queue_closes (s : session) : bool :=
+  existsb (fun m => match m with
+                    | SBye _ => true
+                    | SDisinvite r => match s.(s_room) with Some k => N.eqb (snd k) r | None => false end
+                    | _ => false end) s.(s_pending).
 
 (* ---- protocol 2.0 tokens (processHelloV2) ----
    Signing methods by index; which of them the parser is told to accept comes from the source
@@ -650,7 +669,12 @@ Definition do_hello (h : hub) (c : N) (cn : conn) (hl : hello) : hub * list out 
                   let h3 := set_expired h2 (nrem n h2.(h_expired)) in
                   let h4 := set_clients h3 (nadd n h3.(h_clients)) in
                   let h5 := set_conns h4 (aset h4.(h_conns) c (mkconn cn.(c_addr) (Some n) false)) in
-                  (h5, outs1 ++ ToConn c (SHello n (sess_userid h n s)) :: flush c s.(s_pending))
+                  let res := (h5, outs1 ++ ToConn c (SHello n (sess_userid h n s)) :: flush c (upto_closing s.(s_room) s.(s_pending))) in
+                  (* a queued bye, or a queued disinvite from the room the session is in, closes the connection
+                     (and with it the session) once it is written, like any other time it is sent *)
+                  if queue_closes s then
+                    let '(h6, outs6) := close_conn h5 c in (h6, snd res ++ outs6)
+                  else res
             | None => (h, [ToConn c (SError E_no_such_session)])
             end
         | _ => (record_failure h cn.(c_addr) ACT_RESUME, [ToConn c (SError E_no_such_session)])
@@ -1222,7 +1246,12 @@ Definition do_mcudone (h : hub) (tok : N) (ok : bool) : hub * list out :=
   | Some p => finish_create (set_mcu h h.(h_mcutok) (adel h.(h_mcupending) tok) h.(h_mcuopen)) tok p ok
   end.
 
-Definition do_media (h : hub) (c sid : N) (s : session) (to : recipient) (mk stream media : N) : hub * list out :=
+(* the m-lines of an offer as the driver writes them: bit 0 audio, bit 1 video, bit 2 application, and
+   bits 3 / 4 an audio / video section with port 0 ("bundle-only": the track is sent all the same) *)
+Definition eff_media (m : N) : N := N.lor (N.land m 3) (N.land (N.shiftr m 3) 3).
+
+Definition do_media (h : hub) (c sid : N) (s : session) (to : recipient) (mk stream media0 : N) : hub * list out :=
+  let media := eff_media media0 in
   match to with
   | RSession i =>
       (* the session the message names; 0 when the string is not the id of a live session *)
